@@ -115,6 +115,11 @@ def verify_function(c: Contract, registry: Dict[str, Contract]) -> FunctionResul
         n_ret = 0
         for pi, o in enumerate(outs):
             s = o.st
+            # vacuity guard: every path that reaches an exit must be satisfiable (quantifier-free part)
+            never_returns = c.ensures == ["False"]
+            if (o.kind in ("normal", "return")) != never_returns:
+                ex.oblige(f"cover.exit#p{pi}", s, z3.BoolVal(False), fi.lineno, "cover_exit",
+                          "this exit is reachable" + (" (function never returns normally: exceptional exits are used)" if never_returns else ""))
             if o.kind in ("normal", "return"):
                 n_ret += 1
                 rv = o.val if o.val is not None else vnone()
@@ -191,8 +196,25 @@ def verify_function(c: Contract, registry: Dict[str, Contract]) -> FunctionResul
     res.time_exec = time.time() - t0
     if res.status == "ok":
         t1 = time.time()
+        exits = [ob for ob in res.obligations if ob.kind == "cover_exit"]
         for ob in res.obligations:
+            if ob.kind != "cover_exit":
+                solve(ob)
+        # vacuity guard at function level: SOME normal exit must have a path condition that cannot be refuted
+        # (an individual infeasible path is harmless; all of them being infeasible means the contract is vacuous)
+        found = False
+        for ob in exits:
+            if found:
+                ob.result, ob.backend = "sat", "skipped (another exit already shown reachable)"
+                continue
+            ob.kind = "cover"
             solve(ob)
+            ob.kind = "cover_exit"
+            if ob.result == "sat":
+                found = True
+        if exits and not found:
+            exits[0].kind = "cover"   # reported as vacuous
+            exits[0].result = "unsat"
         res.time_solve = time.time() - t1
     return res
 
@@ -283,6 +305,21 @@ def solve(ob: Obligation) -> None:
         if r2 is not None:
             ob.backend = "cvc5"
             r = r2
+    if ob.kind == "cover" and r == z3.sat:
+        # second half of the vacuity guard: the FULL path condition (quantified facts included) must not be refutable
+        from .exec import has_quantifier as _hq
+
+        if any(_hq(p) for p in ob.pc):
+            s4 = z3.Solver()
+            s4.set("timeout", 4000)
+            s4.set("smt.mbqi", False)
+            for a in INTERN.string_axioms():
+                s4.add(a)
+            for p in ob.pc:
+                s4.add(p)
+            if s4.check() == z3.unsat:
+                r = z3.unsat
+                ob.backend = "z3-api(ematching, full path condition)"
     if r == z3.unknown and ob.kind != "cover":
         # last resort: drop the quantified assumptions.  unsat => proved from fewer assumptions (sound);
         # sat => a candidate counter-model (the dropped facts might exclude it): reported as such
